@@ -5,12 +5,30 @@ package main
 
 import (
 	"bytes"
+	"encoding/hex"
 	"math"
 
 	"github.com/openGemini/openGemini/lib/record"
 	"github.com/openGemini/openGemini/lib/util/lifted/influx/influxql"
 	"verifharness/internal/gen"
 )
+
+type RecFieldJ struct {
+	N  string `json:"n"`
+	Ty int    `json:"ty"`
+}
+type RecColJ struct {
+	Len  int      `json:"len"`
+	Nil  int      `json:"nil"`
+	Off  int      `json:"off"`
+	Val  string   `json:"val"`
+	Bm   string   `json:"bm"`
+	Offs []uint32 `json:"offs"`
+}
+type RecJ struct {
+	Schema []RecFieldJ `json:"schema"`
+	Cols   []RecColJ   `json:"cols"`
+}
 
 func genRecord(r *gen.Rand, c *Case) {
 	c.K = "record"
@@ -74,6 +92,18 @@ func runRecord(c *Case) {
 		return
 	}
 	c.NPref = len(buf)
+	if len(buf) <= 4000 {
+		c.Hex = hex.EncodeToString(buf)
+		rj := &RecJ{}
+		for i := range rec.Schema {
+			rj.Schema = append(rj.Schema, RecFieldJ{N: hex.EncodeToString([]byte(rec.Schema[i].Name)), Ty: rec.Schema[i].Type})
+			cv := &rec.ColVals[i]
+			cj := RecColJ{Len: cv.Len, Nil: cv.NilCount, Off: cv.BitMapOffset, Val: hex.EncodeToString(cv.Val), Bm: hex.EncodeToString(cv.Bitmap), Offs: []uint32{}}
+			cj.Offs = append(cj.Offs, cv.Offset...)
+			rj.Cols = append(rj.Cols, cj)
+		}
+		c.RecJ = rj
+	}
 	ok := len(got.Schema) == len(rec.Schema) && len(got.ColVals) == len(rec.ColVals) && len(buf) == rec.CodecSize()
 	for i := 0; ok && i < len(rec.Schema); i++ {
 		a, b := &rec.ColVals[i], &got.ColVals[i]
